@@ -55,7 +55,16 @@ def ensemble(rng, r):
         inp = [x.copy() for x in rhos]
     pk = [0, 1, 3, 1][(r // 4) % 4]
     p = gen.prior(rng, n, pk)
-    return dict(dims=dims, n=n, cplx=cplx, form=form, inp=inp, rhos=rhos, p=p, pk=pk)
+    dup = None
+    if n >= 3 and r % 5 == 3:
+        # one state listed twice, the heavier copy later in the list
+        i, j = sorted(int(v) for v in rng.choice(n, size=2, replace=False))
+        inp[j], rhos[j] = inp[i].copy(), rhos[i].copy()
+        if p[j] < p[i]:
+            p = np.array(p, dtype=float)
+            p[i], p[j] = p[j], p[i]
+        dup = (i, j)
+    return dict(dims=dims, n=n, cplx=cplx, form=form, inp=inp, rhos=rhos, p=p, pk=pk, dup=dup)
 
 
 def bell_ensemble(subset=(0, 1, 2, 3), rng=None):
@@ -147,6 +156,21 @@ def _run_ppt(ctx, spec, rng):
     gu = global_upper(ctx, e)
     if gu is not None:
         ctx.check("O1:PPT<=global", v <= gu + 2e-4, dev=max(0.0, v - gu), tol=2e-4, sig=sig, nt=nt, mech="ppt_distinguishability:above-global-optimum", detail=dict(det, global_upper=gu))
+    if e.get("dup"):
+        # success means naming the *index*: of two copies of one state the lighter one (here the earlier) is never worth guessing, its outcome can be
+        # merged into the heavier copy's (a sum of PPT operators is PPT), so the value is (1 - p_light) times the value of the ensemble without it
+        i, j = e["dup"]
+        keep = [k for k in range(n) if k != i]
+        scale = 1.0 - float(p[i])
+        for pd in ("dual", "primal"):
+            if (0, pd) not in vals:
+                continue
+            res = _solve(ctx, ppt_distinguishability, [e["inp"][k].copy() for k in keep], [0], list(dims), [float(p[k]) / scale for k in keep], primal_dual=pd)
+            if res is not None:
+                want = scale * float(np.real(res[0]))
+                ctx.check("O2:repeated-state=lighter-copy-dropped", None, dev=abs(want - vals[(0, pd)]), tol=TOLA, sig=sig + (pd, "dup"), nt=True,
+                          mech=f"ppt_distinguishability:repeated-state-differs-from-ensemble-without-the-lighter-copy[{pd}]",
+                          detail=dict(det, duplicate=[i, j], value_without_lighter_copy_times_remaining_weight=want))
     if anchor:
         want = min(1.0, 2.0 / n)
         ctx.check("O2:bell=1/2", None, dev=abs(v - want), tol=TOLA, sig=("bell", n, field), nt=True, mech=f"ppt_distinguishability:{n}-bell-states!=min(1,2/k)", detail=dict(det, want=want))
